@@ -58,13 +58,23 @@ func concScens(tier string) []concScen {
 		{Name: "lookup(S), blob of A answers 500", Threads: t("D1S"), Fault: &fault{Target: "blob:1:A", Nth: 1, Action: "500"}},
 		{Name: "lookup(A) || lookup(S), blob of S fails", Threads: t("D1A", "D1S"), Fault: &fault{Target: "blob:1:S", Nth: 1, Action: "transient"}},
 	}
+	// two clients that both resolve the image have 6+ threads: tighter bounds keep them finite in the budget
+	bigPB, bigFB := 1, 1
+	if tier == "thorough" {
+		bigPB, bigFB = 2, 1
+	}
+	for i := range scs {
+		if len(scs[i].Pre) == 0 && len(scs[i].Threads) > 1 {
+			scs[i].PB, scs[i].FB = bigPB, bigFB
+		}
+	}
 	if tier == "thorough" {
 		scs = append(scs,
 			concScen{Name: "release(last use of A) || use(A);lookup(A) || lookup(S)", Pre: f("D1A U1A"), Threads: t("R1A", "U1A D1A", "D1S")},
 			concScen{Name: "release(last use of A) || use(A);lookup(A);release(A)", Pre: f("D1A U1A"), Threads: t("R1A", "U1A D1A R1A")},
 			concScen{Name: "use(A);lookup(A);release(A) || use(A);lookup(A);release(A)", Pre: f("D1A"), Threads: t("U1A D1A R1A", "U1A D1A R1A")},
-			concScen{Name: "img1: use(S);lookup(S) || img2: use(S);lookup(S);release(S)", Threads: t("U1S D1S", "U2S D2S R2S")},
-			concScen{Name: "lookup(A) || lookup(A) || lookup(S), image unresolved", Threads: t("D1A", "D1A", "D1S")},
+			concScen{Name: "img1: use(S);lookup(S) || img2: use(S);lookup(S);release(S)", Threads: t("U1S D1S", "U2S D2S R2S"), PB: 2, FB: 1},
+			concScen{Name: "lookup(A) || lookup(A) || lookup(S), image unresolved", Threads: t("D1A", "D1A", "D1S"), PB: 1, FB: 1},
 		)
 	}
 	return scs
